@@ -125,12 +125,37 @@ fn defrag_run(a: &Args) {
     out.finish();
 }
 
+/// generic line driver: one input json per line -> f(id, input) -> one event per line
+fn per_line(a: &Args, f: fn(&str, &Value) -> Value) {
+    let inp = std::fs::read_to_string(a.get("in").expect("--in")).expect("read input");
+    let mut out = Out::new(a.get("out").expect("--out"));
+    let marker = Marker::new(a.get("marker"));
+    let skip = a.skip_ids();
+    for (i, line) in inp.lines().enumerate() {
+        if line.trim().is_empty() {
+            continue;
+        }
+        let v: Value = serde_json::from_str(line).expect("input json");
+        let id = v["id"].as_str().map(|s| s.to_string()).unwrap_or_else(|| format!("x{}", i));
+        if skip.contains(&id) {
+            continue;
+        }
+        marker.set(&id);
+        let ev = f(&id, &v);
+        out.line(&ev);
+    }
+    out.finish();
+}
+
 fn main() {
+    // panics of the code under test are data (caught per case and recorded in the trace), not console noise
+    std::panic::set_hook(Box::new(|_| {}));
     let a = Args::new();
     match a.v.get(1).map(|s| s.as_str()) {
         Some("decode-gen") => decode_gen(&a),
         Some("decode-in") => decode_in(&a),
         Some("defrag-run") => defrag_run(&a),
+        Some("ext-run") => per_line(&a, verif_harness::extchain::run_config),
         other => {
             eprintln!("unknown sub command {:?}", other);
             std::process::exit(2);
